@@ -36,7 +36,7 @@ import (
 
 func init() {
 	protocol.VerifSegTrace = c13Dispatch
-	register(&Prop{ID: "C13", Gen: genC13, Run: runC13, Timeout: 1200 * time.Second})
+	register(&Prop{ID: "C13", Gen: genC13, Run: runC13, Timeout: 600 * time.Second})
 }
 
 // ---- trace collection, keyed by *Protocol
@@ -495,7 +495,11 @@ func genC13(r *Rand, n int, tier string, emit func(string)) {
 		plan := Pick(r, "-", "-", "65543", "4096,7", "1000", "8,65535")
 		seed := r.Intn(1 << 30)
 		ms := func(t int) string { return fmt.Sprintf("%d.%d", t, r.Intn(1000)) }
-		switch r.Intn(10) {
+		pickCase := r.Intn(10)
+		if tier == "race" && (pickCase == 3 || pickCase == 4) {
+			pickCase = 6 // the race-detector run leaves out the multi-MiB block-fetch batches
+		}
+		switch pickCase {
 		case 0, 1, 2: // chain-sync NtN client, pipelined RequestNext, fast server
 			nm := Pick(r, 1, 3, 8, 20, 40, 80)
 			steps := []string{}
